@@ -89,6 +89,11 @@ MethodConfs == { [Base EXCEPT !.assns[1].confs = <<ConfM(r, "id1", "in", m)>>] :
                \cup { [Base EXCEPT !.assns[1].confs = <<Conf("eq", "id1", "in"), ConfM(r, "id1", "in", m)>>] : r \in {"eq", "wrong", "absent"}, m \in {"hok", "sv", "none"} }
                \cup { [Base EXCEPT !.assns[1].confs = <<ConfM(r, "id1", "in", m), Conf("eq", "id1", "in")>>] : r \in {"eq", "wrong", "absent"}, m \in {"hok", "sv", "none"} }
 NoConfs  == { [Base EXCEPT !.assns[1].confs = <<>>] }
+\* a SubjectConfirmation without SubjectConfirmationData names no Recipient: it is not addressed to this SP
+NoData(m) == ConfM("nodata", "absent", "in", m)
+NoDataConfs == UNION { { [b EXCEPT !.assns[1].confs = <<NoData(m)>>],
+                         [b EXCEPT !.assns[1].confs = <<GoodConf, NoData(m)>>],
+                         [b EXCEPT !.assns[1].confs = <<NoData(m), GoodConf>>] } : m \in {"bearer", "hok", "none"}, b \in {Base, Unsigned(Base)} }
 ArtC03   == { [Base EXCEPT !.entry = "artifact", !.art = [irt |-> "match", iss |-> i, status |-> s, signed |-> sg, time |-> "in"],
                            !.signed = rs, !.dest = d] :
                 i \in {"eq", "wrong", "prefix", "empty", "absent"}, s \in {"Success", "Requester", "absent"},
@@ -109,7 +114,7 @@ NoIdentCfgs == { [BaseCfg EXCEPT !.eidSet = FALSE, !.noIdent = TRUE, !.allowIdp 
 NoIdentIns  == UNION { { Vary(b, "auds", v) : v \in { <<>>, <<"wrong">>, <<"wrong", "wrong">>, <<"eq">> } } : b \in {Base, Unsigned(Base)} }
 InitC03q == \/ /\ cfg \in NoIdentCfgs /\ in \in NoIdentIns
             \/ /\ cfg \in CfgsC03
-               /\ in \in Singles(Base) \cup Singles(Unsigned(Base)) \cup TwoConfs \cup TwoAssns \cup NoConfs \cup MethodConfs
+               /\ in \in Singles(Base) \cup Singles(Unsigned(Base)) \cup TwoConfs \cup TwoAssns \cup NoConfs \cup NoDataConfs \cup MethodConfs
             \/ /\ cfg \in CfgsC03small
                /\ in \in Pairs(Base) \cup ArtC03 \cup ArtInner
             \/ /\ cfg \in {BaseCfg, [BaseCfg EXCEPT !.cur = "query"], [BaseCfg EXCEPT !.cur = "rel"]}
@@ -119,7 +124,7 @@ InitC03q == \/ /\ cfg \in NoIdentCfgs /\ in \in NoIdentIns
                /\ in \in { [x EXCEPT !.entry = "post"] : x \in Singles(Base) }
 InitC03t == \/ /\ cfg \in NoIdentCfgs /\ in \in NoIdentIns
             \/ /\ cfg \in CfgsC03
-               /\ in \in Singles(Base) \cup Singles(Unsigned(Base)) \cup TwoConfs \cup TwoAssns \cup NoConfs \cup MethodConfs
+               /\ in \in Singles(Base) \cup Singles(Unsigned(Base)) \cup TwoConfs \cup TwoAssns \cup NoConfs \cup NoDataConfs \cup MethodConfs
                         \cup Pairs(Base) \cup ArtC03 \cup ArtInner
             \/ /\ cfg \in CfgsC03small
                /\ in \in Pairs(Unsigned(Base)) \cup { [x EXCEPT !.entry = "post"] : x \in Singles(Base) \cup Pairs(Base) }
@@ -271,7 +276,8 @@ AssnIssuer == /\ pc = "AssnIssuer" /\ Keep /\ UNCHANGED badStatus
 ConfLoop == /\ pc = "ConfLoop" /\ Keep /\ UNCHANGED badStatus
             /\ IF cj > Len(A.confs) THEN (IF A.cond = "out" THEN FailAssn("Conditions") ELSE Stay("Audience"))
                ELSE LET c == A.confs[cj] IN
-                    IF ~cfg.allowIdp /\ Norm(c.irt) \notin cfg.outstanding THEN FailAssn("ConfInResponseTo")
+                    IF c.recip = "nodata" THEN FailAssn("ConfNoData")
+                    ELSE IF ~cfg.allowIdp /\ Norm(c.irt) \notin cfg.outstanding THEN FailAssn("ConfInResponseTo")
                     ELSE IF c.recip # "eq" THEN FailAssn("ConfRecipient")
                     ELSE IF c.nooa = "out" THEN FailAssn("ConfNotOnOrAfter")
                     ELSE cj' = cj + 1 /\ UNCHANGED <<pc, ai, sigReq, hasSig, errs, oks, verdict, ret, step>>
@@ -339,7 +345,9 @@ TimeBad == \/ in.rTime = "out"
 
 MustReject == C03MustReject \/ C04MustReject
 MustAccept == /\ ~MustReject /\ TimesIn /\ Len(in.assns) = 1      \* several assertions, all good: left open (an SP may insist on exactly one)
-              /\ ~DestIsEmpty                                   \* absent Destination on unsigned responses is left open
+              \* Destination is mandatory only on a signed Response: an unsigned one without the attribute satisfies the
+              \* clause (an empty attribute, and a signed Response without Destination inside an ArtifactResponse, are left open)
+              /\ (DestIsEmpty => in.dest = "absent" /\ ~in.signed)
               /\ \A k \in DOMAIN in.assns : /\ Covered(in.assns[k]) /\ AssnAddrGood(in.assns[k])
                                             /\ ~AssnIrtBad(in.assns[k]) /\ ~AssnIrtOpen(in.assns[k])
 Class == IF MustReject THEN "MustReject" ELSE IF MustAccept THEN "MustAccept" ELSE "DontCare"
